@@ -111,15 +111,16 @@ def _cases(ctx, rows):
             for tl, cl, fo in rng.sample(full, 5):  # plus a seeded sample of the other layouts
                 cases.append((r['slot'], r['cls'], r['child'], tl, cl, fo, rng.choice(drv.APIS)))
     else:
-        for r in valid:
-            for tl, cl, fo in full:
-                for api in drv.APIS:
+        for n, r in enumerate(valid):                # the full layout x form product; every entry point on the
+            for k, (tl, cl, fo) in enumerate(full):  # layouts without line breaks in the target, one (rotating) elsewhere
+                apis = drv.APIS if tl in ('bare', 'tpar', 'tneed') else (drv.APIS[(n + k + ctx.seed) % 3],)
+                for api in apis:
                     cases.append((r['slot'], r['cls'], r['child'], tl, cl, fo, api))
     return sorted(set(cases))
 
 
 def _run_puts(ctx, cases, nproc=14, njvm=6):
-    nsh = max(1, min(nproc if ctx.quick else 4 * nproc, len(cases) // 200 or 1))
+    nsh = max(1, min(8 if ctx.quick else 3 * nproc, len(cases) // 200 or 1))
     shards = [(k, cases[k::nsh]) for k in range(nsh)]
     out = []
     with mp.get_context('spawn').Pool(min(nproc, nsh)) as pool, cf.ThreadPoolExecutor(max_workers=njvm) as ex:
